@@ -9,6 +9,9 @@
   well-formed roots without catching its exception.
 -/
 import Tranp.Lemmas.Procedure
+import Tranp.Lemmas.ProcedureNecessity
+import Tranp.Lemmas.ProcedureExpand
+import Tranp.Lemmas.PropKeys
 
 namespace Tranp.C09
 open Tranp Tranp.Procedure
@@ -50,8 +53,8 @@ theorem event {R : Type} (hs : Handlers R) (hH : hs.Good WF) (fuel : Nat) (root 
     (hrun : run (exec hs fuel) hs ([] :: st) pre = (s, .ok ())) :
     ∃ evs fr', denoteProps (denoteF hs fuel) hs n.props = .ok evs ∧
       s = (evs.flat.reverse ++ fr') :: st ∧
-      makeEvent n (evs.flat.reverse ++ fr') = (fr', .ok evs.reverse) ∧
-      eventOf (denoteF hs fuel) hs n = .ok evs.reverse := by
+      makeEvent n (evs.flat.reverse ++ fr') = (fr', .ok (refEvent evs)) ∧
+      eventOf (denoteF hs fuel) hs n = .ok (refEvent evs) := by
   obtain ⟨evs, fr', h1, h2, h3⟩ :=
     event_node (exec hs fuel) (denoteF hs fuel) hs (exec_sim hs hH fuel) hH root hwf [] st pre post n hsplit s hrun
   exact ⟨evs, fr', h1, h2, h3, by simp [eventOf, h1]⟩
@@ -102,7 +105,7 @@ theorem no_leak {R : Type} (hs : Handlers R) (hH : hs.Good WF) (fuel : Nat) (n :
   obtain ⟨evs₂, fr₂, hd₂, he₂, hm₂, _⟩ := event hs hH fuel root₂ hwf₂ st₂ pre₂ post₂ n hs₂ s₂ hr₂
   rw [hd₁] at hd₂
   cases hd₂
-  exact ⟨evs₁.reverse, evs₁.flat.reverse, fr₁, fr₂, he₁, he₂, hm₁, hm₂⟩
+  exact ⟨refEvent evs₁, evs₁.flat.reverse, fr₁, fr₂, he₁, he₂, hm₁, hm₂⟩
 
 /-- non-vacuity: node 4 of `good` is visited inside `good` and as a root of its own -/
 example : ∃ pre post, visited good = pre ++ (.mk 4 ['m'] false [.one ['x'] false (leaf 5), .many ['y'] true []] []) :: post :=
@@ -128,16 +131,78 @@ def nestH : Handler Nat := fun n ev =>
 example : exec (fb nestH) 2 [[5]] good = ([[5]], .ok 456321) ∧ denoteF (fb nestH) 2 good = .ok 456321 := by
   refine ⟨by rfl, by rfl⟩
 
-/-! ### C09.wf_necessary: each clause of `WFNode` is needed -/
+/-! ### C09.wf_necessary: `WFNode` is exactly the obligation -/
+
+/-- General necessity: for EVERY tree in which the run visits an ill-formed node there is a handler table (handlers that
+    return, and at most one that starts a nested `exec`; none catches) on which `exec` differs from the reference — a
+    wrong event reaches a handler, or `exec` raises (stack underflow, final stack size ≠ 1, `len()` of a node).
+    `KeyConsistent`: `getattr(node, key)` is a function of the key (entries of a repeated key are the same entry) —
+    a fact about Python, checked by the harness on every exported node.
+    Together with `final`: for key-consistent trees, `WF root` ⟺ `exec` computes the reference for every handler table
+    that does not catch nested failures. -/
+theorem wf_necessary (root : PNode) (hcons : ∀ m ∈ visited root, KeyConsistent m) (hbad : ¬ WF root) :
+    ∃ hs : Handlers Sh, hs.Good (fun _ => True) ∧
+      ∀ fuel st, (exec hs (fuel + 2) st root).2 ≠ denoteF hs (fuel + 2) root := by
+  have : ∃ m, m ∈ visited root ∧ ¬ WFNode m := by
+    apply Classical.byContradiction
+    intro hne
+    exact hbad (fun m hm => Classical.byContradiction fun hw => hne ⟨m, hm, hw⟩)
+  obtain ⟨m0, hm0, hb0⟩ := this
+  obtain ⟨m, hm, hb, hmin⟩ := exists_minimal_violation (ssize m0 + 1) root m0 (by omega) hm0 hb0
+  have hc := hcons m hm
+  simp only [visited, List.mem_append, List.mem_singleton] at hm
+  rcases hm with hm | rfl
+  · refine ⟨probeT (ssize root) m, ?_, fun fuel st => necessity_below_root root m hm hmin hc hb fuel st⟩
+    intro cls h hf n ev
+    simp [probeT, Handlers.find] at hf
+    subst hf
+    unfold probeH
+    split
+    · exact .call _ _ trivial (fun r => .ret r)
+    · exact .ret _
+  · refine ⟨plainT, plainT_good _, fun fuel st => ?_⟩
+    have hden : denoteF plainT (fuel + 2) m = .ok (foldFlags PProp.isMany m.props.reverse []) := denote_plain _ m
+    rw [hden]
+    exact necessity_at_root m hmin hc hb (exec plainT (fuel + 1)) (denoteF plainT (fuel + 1))
+      (exec_sim plainT (plainT_good WF) (fuel + 1)) st
+
+/-- non-vacuity: an ill-formed node three levels down (a key repeated with a non-empty value), consistent keys -/
+example :
+    let bad : PNode := .mk 9 ['d'] false [.one ['a'] false (leaf 1), .one ['a'] false (leaf 1)] []
+    let root : PNode := .mk 0 ['r'] false [.many ['x'] true [leaf 2, .mk 3 ['m'] false [.one ['y'] false bad] []]] []
+    ¬ WF root ∧ ∀ m ∈ visited root, KeyConsistent m := by
+  intro bad root
+  refine ⟨by decide, ?_⟩
+  have hv : visited root = [leaf 2, leaf 1, bad, .mk 3 ['m'] false [.one ['y'] false bad] [], root] := by rfl
+  intro m hm
+  rw [hv] at hm
+  simp only [List.mem_cons, List.not_mem_nil, or_false] at hm
+  rcases hm with rfl | rfl | rfl | rfl | rfl
+  · exact keyConsistent_of_nodup _ (by decide)
+  · exact keyConsistent_of_nodup _ (by decide)
+  · exact keyConsistent_pair _ _ _ _ _
+  · exact keyConsistent_of_nodup _ (by decide)
+  · exact keyConsistent_of_nodup _ (by decide)
+
+/-- what became weaker: a terminal node may declare properties that yield empty lists, and `prop_keys()` may repeat a key
+    whose value is an empty list — both are harmless, `event`/`final` cover them -/
+example :
+    let n : PNode := .mk 1 ['r'] false [.many ['a'] true [], .one ['b'] false (.mk 2 ['t'] true [.many ['c'] true []] []), .many ['a'] true []] []
+    WF n ∧ exec (fb sumH) 1 [] n = ([], .ok 21) ∧
+      (makeEvent n [2] : List Nat × _) = ([], .ok [(['a'], .many []), (['b'], .one 2)]) := by
+  refine ⟨by decide, by rfl, by rfl⟩
+
+/-! per-clause witnesses (kernel-evaluated): what goes wrong -/
+
 
 /-- not consumed `_under_expand()` results stay on the stack: the size assertion fails -/
-theorem wf_necessary_under :
+example :
     ∃ root : PNode, ¬ WF root ∧ wfViolations root = ["under-not-consumed"] ∧
       (exec (fb idH) 1 [] root).2 = .error (.logicStacks 2) ∧ denoteF (fb idH) 1 root = .ok 0 :=
   ⟨.mk 0 ['r'] false [] [leaf 1], by decide, by rfl, by rfl, by rfl⟩
 
 /-- a terminal node with an expandable property pops a sibling's result (`x` of node 2 receives the result of node 1) -/
-theorem wf_necessary_terminal :
+example :
     ∃ root : PNode, ¬ WF root ∧ (visited root).map wfViolations = [[], ["terminal-with-props"], []] ∧
       (exec (fb sumH) 1 [] root).2 = .error .logicStackEmpty ∧ denoteF (fb sumH) 1 root = .ok 530 ∧
       (makeEvent (.mk 2 ['t'] true [.one ['x'] false (leaf 5)] []) [1] : List Nat × _) = ([], .ok [(['x'], .one 1)]) :=
@@ -145,21 +210,21 @@ theorem wf_necessary_terminal :
     by decide, by rfl, by rfl, by rfl, by rfl⟩
 
 /-- a repeated key is flattened once and popped twice -/
-theorem wf_necessary_dupkey :
+example :
     ∃ root : PNode, ¬ WF root ∧ wfViolations root = ["duplicate-key"] ∧
       (exec (fb idH) 1 [] root).2 = .error .logicStackEmpty ∧ denoteF (fb idH) 1 root = .ok 0 :=
   ⟨.mk 0 ['r'] false [.one ['a'] false (leaf 1), .one ['a'] false (leaf 1)] [], by decide, by rfl, by rfl, by rfl⟩
 
 /-- a list value under a single-valued annotation is flattened entirely and popped once: the operand is shifted
     (`a` receives only the last element) and a result is left over -/
-theorem wf_necessary_annotation :
+example :
     ∃ root : PNode, ¬ WF root ∧ wfViolations root = ["annotation-shape"] ∧
       (makeEvent root [2, 1] : List Nat × _) = ([1], .ok [(['a'], .one 2)]) ∧
       (exec (fb idH) 1 [] root).2 = .error (.logicStacks 2) ∧ denoteF (fb idH) 1 root = .ok 0 :=
   ⟨.mk 0 ['r'] false [.many ['a'] false [leaf 1, leaf 2]] [], by decide, by rfl, by rfl, by rfl, by rfl⟩
 
 /-- the converse shape error: a single node under a `list[...]` annotation makes `len()` raise a raw TypeError -/
-theorem wf_necessary_annotation_len :
+example :
     ∃ root : PNode, ¬ WF root ∧ (exec (fb idH) 1 [] root).2 = .error .typeError ∧ denoteF (fb idH) 1 root = .ok 0 :=
   ⟨.mk 0 ['r'] false [.one ['a'] true (leaf 1)] [], by decide, by rfl, by rfl⟩
 
@@ -205,5 +270,109 @@ theorem failed_nested_counterexample : ¬ failed_nested_statement := by
 example : denoteF (fb catchH) 2 (.mk 0 ['r'] false [] []) = .ok 7 ∧
     exec (fb catchH) 2 [] (.mk 0 ['r'] false [] []) = ([[7, 42], []], .error (.logicStacks 2)) := by
   refine ⟨by rfl, by rfl⟩
+
+/-! ### `Node.prop_keys`: the class-attribute cache is history-independent -/
+
+open Tranp.PropKeys in
+/-- For every class table in which no class shares its `__name__` with a class of its own MRO, and every history of
+    `prop_keys()` calls (any classes, any order, repetitions), each answer is the cache-free computation over the MRO.
+    Invariant: the cache is a subset of the graph of the pure function, each entry under its own class's attribute name. -/
+theorem prop_keys_history_independent (t : PropKeys.Table) (hn : NamesDistinctOnMro t) (qs : List Nat) :
+    (PropKeys.run t [] qs).2 = qs.map t.pure :=
+  (run_sound t hn [] (fun _ h => by simp at h) qs).1
+
+open Tranp.PropKeys in
+/-- … and from any cache such a history can have produced -/
+theorem prop_keys_history_independent_from (t : PropKeys.Table) (hn : NamesDistinctOnMro t) (qs1 qs2 : List Nat) :
+    (PropKeys.run t (PropKeys.run t [] qs1).1 qs2).2 = qs2.map t.pure :=
+  (run_sound t hn _ (run_sound t hn [] (fun _ h => by simp at h) qs1).2 qs2).1
+
+/-- `Node`, `Base(Node)` without expandable properties, `Sub(Base)` declaring `a` -/
+def pkTable : PropKeys.Table :=
+  { classes := [⟨['N'], ['m', '.', 'N'], [0]⟩, ⟨['B'], ['m', '.', 'B'], [1, 0]⟩, ⟨['S'], ['m', '.', 'S'], [2, 1, 0]⟩],
+    nodeId := 0, metas := [(['m', '.', 'S'], [['a']])] }
+
+theorem pkTable_names : PropKeys.NamesDistinctOnMro pkTable := by
+  intro c i hi hname
+  match c with
+  | 0 => simp [pkTable, PropKeys.Table.cls] at hi; exact hi
+  | 1 =>
+    simp [pkTable, PropKeys.Table.cls] at hi
+    rcases hi with rfl | rfl
+    · rfl
+    · simp [pkTable, PropKeys.Table.cls] at hname
+  | 2 =>
+    simp [pkTable, PropKeys.Table.cls] at hi
+    rcases hi with rfl | rfl | rfl
+    · rfl
+    · simp [pkTable, PropKeys.Table.cls] at hname
+    · simp [pkTable, PropKeys.Table.cls] at hname
+  | n + 3 => simp [pkTable, PropKeys.Table.cls] at hi
+
+/-- non-vacuity: base first, then the subclass -/
+example : (PropKeys.run pkTable [] [1, 2, 0, 2]).2 = [[], [['a']], [], [['a']]] := by rfl
+
+/-- The seeded variant (attribute name without the class name, lookup still through the MRO) is history-dependent:
+    after the base class was asked, the subclass answers with the base's list. -/
+def prop_keys_fixed_key_statement : Prop :=
+  ∀ (t : PropKeys.Table), PropKeys.NamesDistinctOnMro t → ∀ qs : List Nat,
+    (PropKeys.runWith (fun _ => "__prop_keys__".toList) t [] qs).2 = qs.map t.pure
+
+theorem prop_keys_fixed_key_counterexample : ¬ prop_keys_fixed_key_statement := by
+  intro h
+  have := h pkTable pkTable_names [1, 2]
+  revert this
+  decide
+
+/-- The hypothesis of `prop_keys_history_independent` is needed on the code as it is: a subclass that has the same
+    `__name__` as one of its bases (another module) inherits the base's cached answer. No node class of tranp does
+    (checked on the real class table on every run); the real `prop_keys()` behaves like the model on such tables
+    (stream `propkeys-synth`). -/
+def prop_keys_any_names_statement : Prop :=
+  ∀ (t : PropKeys.Table) (qs : List Nat), (PropKeys.run t [] qs).2 = qs.map t.pure
+
+theorem prop_keys_same_name_counterexample : ¬ prop_keys_any_names_statement := by
+  intro h
+  have := h { classes := [⟨['N'], ['m', '.', 'N'], [0]⟩, ⟨['A'], ['m', '.', 'A'], [1, 0]⟩, ⟨['A'], ['k', '.', 'A'], [2, 1, 0]⟩],
+              nodeId := 0, metas := [(['k', '.', 'A'], [['a']])] } [1, 2]
+  revert this
+  decide
+
+/-! ### `_under_expand()` is C10's `expand`: when is clause 2 of `WFNode` at stake -/
+
+open Tranp.AstPath in
+/-- When `n.under` is what `Nodes.expand` returns for the node's entry `x` at path `q` (the expand paths resolved to
+    nodes by any resolver), it is empty exactly when the entry offers nothing: it has no children, or within three levels
+    below it there are only unresolvable tree entries (`underQuiet`). Uses C10's `expand_spec`. -/
+theorem under_empty_iff (t : Entry) (h : WfTags t) (w : World) (hw : w.cache = mkCache t) (q : Path) (x : Entry)
+    (hq : (q, x) ∈ pathfy t (rootPath t)) (hrel : RelativefySafe q x)
+    (resolve : Str → PNode) (n : PNode)
+    (hunder : (expandPaths w (encodePath q)).map (fun ps => ps.map resolve) = .ok n.under) :
+    n.under.isEmpty = true ↔ underQuiet w.table.canResolve x = true := by
+  rw [expandPaths_mkCache t h w hw q x hq hrel] at hunder
+  simp only [Except.map] at hunder
+  have hu := Except.ok.inj hunder
+  rw [← expandOf_nil_iff w.table.canResolve x q, ← hu]
+  simp [List.isEmpty_iff]
+
+open Tranp.AstPath in
+/-- Clause 2 of `WFNode` for a node class on a tree position: it can fail only for a class that is not `ITerminal`, whose
+    expandable properties (if any) yield nothing there, on an entry that is not quiet (a token / `__empty__` / resolvable
+    entry within three levels). -/
+theorem under_clause_iff (t : Entry) (h : WfTags t) (w : World) (hw : w.cache = mkCache t) (q : Path) (x : Entry)
+    (hq : (q, x) ∈ pathfy t (rootPath t)) (hrel : RelativefySafe q x)
+    (resolve : Str → PNode) (n : PNode)
+    (hunder : (expandPaths w (encodePath q)).map (fun ps => ps.map resolve) = .ok n.under) :
+    (n.terminal = false → (propExpand n.props).isEmpty = true → n.under.isEmpty = true) ↔
+      (n.terminal = true ∨ (propExpand n.props).isEmpty = false ∨ underQuiet w.table.canResolve x = true) := by
+  rw [under_empty_iff t h w hw q x hq hrel resolve n hunder]
+  cases n.terminal <;> cases (propExpand n.props).isEmpty <;> simp
+
+/-- non-vacuity: `r(a(x))` with `a` resolvable — the root is not quiet, the token `x` is -/
+example :
+    let t : AstPath.Entry := .tree ['r'] [.tree ['a'] [.token ['x'] ['v']]]
+    AstPath.WfTags t ∧ AstPath.RelativefySafe [⟨['r'], none⟩] t ∧
+      underQuiet (fun s => s == ['a']) t = false ∧ underQuiet (fun s => s == ['a']) (.token ['x'] ['v']) = true := by
+  decide +kernel
 
 end Tranp.C09
